@@ -82,9 +82,36 @@ pub fn c17(args: Args) {
         pop: Pop { persons: 4, services: 1, groups: 8, dyngroups: 2, oauths: 0, certs: 0, names: 6 },
         w: Weights { create: 35, set_desc: 5, add_member: 40, rem_member: 14, delete: 10, revive: 7, dyn_filter: 4, purge_recycled: 2, advance_small: 3, advance_big: 2, repl: 8, abort: 2, rename: 2, ..Default::default() },
     };
-    let after = |w: &World, rec: &LogRec, _s: &SchemaSnap, _acc: &mut Acc| mon::check_memberof(&w.dumps[rec.op.target()]);
+    // cause classes of the defects known on this tree (see known_findings.json); anything that does
+    // not fit one of them keeps its generic signature
+    let classify = |w: &World, r: usize, op: Option<&Op>, f: Vec<Finding>| -> Vec<Finding> {
+        if f.is_empty() {
+            return f;
+        }
+        let cyc_prev = mon::groups_on_cycles(&w.prev[r]);
+        let cyc_now = mon::groups_on_cycles(&w.dumps[r]);
+        f.into_iter()
+            .map(|(sig, why)| {
+                let cyclic = !cyc_prev.is_empty() || !cyc_now.is_empty();
+                let s2 = if sig.contains("has-extra-group") && matches!(op, Some(Op::DynFilter { .. })) {
+                    "c17/memberof-keeps-dyngroup-after-filter-change".to_string()
+                } else if sig.contains("has-extra-group") && cyclic {
+                    "c17/stale-memberof-after-removal-in-cyclic-graph".to_string()
+                } else if sig.contains("misses-group") && matches!(op, Some(Op::Revive { .. })) {
+                    "c17/memberof-not-restored-for-members-of-revived-group".to_string()
+                } else {
+                    sig
+                };
+                (s2, why)
+            })
+            .collect()
+    };
+    let after = |w: &World, rec: &LogRec, _s: &SchemaSnap, _acc: &mut Acc| {
+        let r = rec.op.target();
+        classify(w, r, Some(&rec.op), mon::check_memberof(&w.dumps[r]))
+    };
     let end = |w: &World, _q: bool, _s: &[SchemaSnap], _a: &mut Acc| -> Vec<Finding> {
-        (0..w.n()).flat_map(|i| mon::check_memberof(&w.dumps[i])).collect()
+        (0..w.n()).flat_map(|i| classify(w, i, None, mon::check_memberof(&w.dumps[i]))).collect()
     };
     let nt = |w: &World| count_ops(w, "add_member") + count_ops(w, "rem_member") >= 3 && count_ops(w, "delete") + count_ops(w, "revive") > 0;
     let hooks = Hooks { after_op: &after, at_end: &end, nontrivial: &nt, dyn_check: false, quiesce: true, verify_sig: Some("c17/server-verify") };
